@@ -395,7 +395,7 @@ func c08New(r *fw.Run, key string, capN int, auto bool) *c08State {
 
 // autoIDStarts: values the automatic-ID counter is moved to before the first Put, so that
 // histories cross digit-count and word-size boundaries.
-var autoIDStarts = []uint64{7, 97, 999999995, 1<<31 - 4, 1<<32 - 4, 9999999997, 1<<53 - 3, 1<<63 - 5}
+var autoIDStarts = []uint64{7, 97, 1<<7 - 3, 1<<8 - 3, 1<<15 - 3, 1<<16 - 3, 999999995, 1<<31 - 4, 1<<32 - 4, 9999999997, 1<<53 - 3, 1<<63 - 5}
 
 func c08NewAt(r *fw.Run, key string, capN int, auto bool, start uint64) *c08State {
 	rp, err := sse.NewFiniteReplayer(capN, auto)
